@@ -155,4 +155,100 @@ theorem tagRange_inScope (starts : List Nat) (len : Nat) (ok : StartsOK starts l
   | enable => simp [tagRange, inScope, hk]
   | other => simp [tagRange, inScope, hk]
 
+/-- what the syntax tree guarantees about a tag: the comment is non-empty, inside the text and inside
+its enclosing block (checked on every generated input by the harness) -/
+def TagOK (len : Nat) (tag : Tag) : Prop :=
+  tag.comment.1 < tag.comment.2 ∧ tag.comment.2 ≤ len ∧
+  ∀ br top, tag.block = some (br, top) → br.1 ≤ tag.comment.1 ∧ tag.comment.2 ≤ br.2
+
+theorem tagRange_nonempty (starts : List Nat) (len : Nat) (ok : StartsOK starts len) (tag : Tag)
+    (htag : TagOK len tag) (rng : Range) (h : tagRange starts len tag = some rng) : rng.1 < rng.2 := by
+  obtain ⟨hc1, hc2, hb⟩ := htag
+  unfold tagRange at h
+  split at h
+  · -- next line
+    split at h
+    · cases h
+    · rename_i l hl
+      split at h
+      · cases h
+      · rename_i lr hlr
+        cases h
+        obtain ⟨_, h3⟩ := (getLine_some_iff starts ok.sorted _ l).mp hl
+        unfold lineRange at hlr
+        split at hlr
+        · cases hlr
+        · rename_i s hs
+          have := h3 s hs
+          split at hlr
+          · rename_i e he
+            cases hlr
+            have := starts_mono starts ok.sorted (l + 1) (l + 1 + 1) s e (by omega) hs he
+            simp only; omega
+          · split at hlr
+            · cases hlr; simp only; omega
+            · cases hlr
+  · -- line
+    split at h
+    · cases h
+    · rename_i l hl
+      obtain ⟨⟨s0, hs0, h2⟩, h3⟩ := (getLine_some_iff starts ok.sorted _ l).mp hl
+      unfold lineRange at h
+      split at h
+      · cases h
+      · rename_i s hs
+        rw [hs0] at hs; cases hs
+        split at h
+        · rename_i e he
+          cases h
+          have := h3 e he
+          simp only; omega
+        · split at h
+          · cases h; simp only; omega
+          · cases h
+  · -- block
+    cases hbl : tag.block with
+    | none => simp [hbl] at h
+    | some bt =>
+      obtain ⟨br, top⟩ := bt
+      simp only [hbl] at h
+      split at h
+      · cases h
+      · have := hb br top hbl
+        cases h
+        omega
+  · cases h
+
+/-! ### file-level sets -/
+
+def tagFileDisabled (tag : Tag) : List Code :=
+  match tag.kind, tag.block, tag.codes with
+  | .disable, some (_, true), some cs => knownCodes cs
+  | _, _, _ => []
+
+theorem analyzeTag_fileDisabled (starts : List Nat) (len : Nat) (st : FileDiag) (tag : Tag) :
+    (analyzeTag starts len st tag).fileDisabled = st.fileDisabled ++ tagFileDisabled tag := by
+  unfold analyzeTag tagFileDisabled
+  split
+  · rename_i hk hb hc
+    simp [hk, hb, hc]
+  · rename_i hk hc
+    simp [hk]
+  · rename_i h1 h2
+    have : (match tag.kind, tag.block, tag.codes with
+        | .disable, some (_, true), some cs => knownCodes cs
+        | _, _, _ => []) = [] := by
+      split
+      · rename_i hk hb hc
+        exact absurd hc (fun hc => h2 _ _ hk hb hc)
+      · rfl
+    rw [this]
+    split <;> simp
+
+theorem foldl_fileDisabled (starts : List Nat) (len : Nat) (tags : List Tag) (st : FileDiag) :
+    (tags.foldl (analyzeTag starts len) st).fileDisabled = st.fileDisabled ++ tags.flatMap tagFileDisabled := by
+  induction tags generalizing st with
+  | nil => simp
+  | cons t rest ih => simp [List.foldl_cons, ih, analyzeTag_fileDisabled, List.append_assoc]
+
 end Diag
